@@ -388,7 +388,7 @@ func (t *State) Play(blockid []byte) error {
 	return t.PlayAndRepost(blockid, false, true)
 }
 
-func (t *State) PlayForMiner(blockid []byte) error {
+func (t *State) PlayForMiner(blockid []byte) (err error) {
 	batch := t.NewBatch()
 	block, blockErr := t.sctx.Ledger.QueryBlock(blockid)
 	if blockErr != nil {
@@ -401,10 +401,9 @@ func (t *State) PlayForMiner(blockid []byte) error {
 	}
 	t.utxo.Mutex.Lock()
 	defer t.utxo.Mutex.Unlock() // lock guard
-	var err error
 	defer func() {
 		if err != nil {
-			t.clearBalanceCache()
+			t.discardUncommittedView()
 		}
 	}()
 	for _, tx := range block.Transactions {
@@ -451,7 +450,7 @@ func (t *State) PlayForMiner(blockid []byte) error {
 // 执行和发送区块
 // PlayAndRepost 执行一个新收到的block，要求block的pre_hash必须是当前vm的latest_block
 // 执行后会更新latestBlockid
-func (t *State) PlayAndRepost(blockid []byte, needRepost bool, isRootTx bool) error {
+func (t *State) PlayAndRepost(blockid []byte, needRepost bool, isRootTx bool) (err error) {
 	batch := t.ldb.NewBatch()
 	block, blockErr := t.sctx.Ledger.QueryBlock(blockid)
 	if blockErr != nil {
@@ -459,6 +458,11 @@ func (t *State) PlayAndRepost(blockid []byte, needRepost bool, isRootTx bool) er
 	}
 	t.utxo.Mutex.Lock()
 	defer t.utxo.Mutex.Unlock()
+	defer func() {
+		if err != nil {
+			t.discardUncommittedView()
+		}
+	}()
 	// 下面开始处理unconfirmed的交易
 	unconfirmToConfirm, undoDone, err := t.processUnconfirmTxs(block, batch, needRepost)
 	if err != nil {
@@ -839,6 +843,18 @@ func (t *State) ClearCache() {
 	t.log.Info("clear utxo cache")
 }
 
+// discardUncommittedView drops every in-memory view (utxo / balance / xmodel caches, total, pending meta)
+// that may hold effects of a block batch which was abandoned before it was written
+func (t *State) discardUncommittedView() {
+	t.ClearCache()
+	if err := t.utxo.ReloadUtxoTotal(); err != nil {
+		t.log.Warn("failed to reload utxo total", "err", err)
+	}
+	t.meta.MutexMeta.Lock()
+	t.meta.MetaTmp = proto.Clone(t.meta.Meta).(*pb.UtxoMeta)
+	t.meta.MutexMeta.Unlock()
+}
+
 func (t *State) QueryBlock(blockid []byte) (kledger.BlockHandle, error) {
 	block, err := t.sctx.Ledger.QueryBlock(blockid)
 	if err != nil {
@@ -989,6 +1005,11 @@ func (t *State) procUndoBlkForWalk(undoBlocks []*pb.InternalBlock,
 	var showBlkId string
 	var tx *pb.Transaction
 	var showTxId string
+	defer func() {
+		if err != nil {
+			t.discardUncommittedView()
+		}
+	}()
 
 	// 依次回滚每个区块
 	for _, undoBlk = range undoBlocks {
@@ -1097,6 +1118,11 @@ func (t *State) procTodoBlkForWalk(todoBlocks []*pb.InternalBlock) (err error) {
 	var showBlkId string
 	var tx *pb.Transaction
 	var showTxId string
+	defer func() {
+		if err != nil {
+			t.discardUncommittedView()
+		}
+	}()
 
 	// 依次执行每个块的交易
 	for i := len(todoBlocks) - 1; i >= 0; i-- {
